@@ -77,6 +77,7 @@ impl<'a> IExec<'a> {
         let origin_chain = self.chain(origin).to_string();
         // ---- 1. the hub builds the inner message (independent encoder)
         let mut inner_tag = w(0);
+        let mut announced_amt: Option<Word> = None;
         let inner: Vec<u8> = match body {
             InBody::Transfer { tok, to, amount, data, src } => {
                 let (id, t_opt) = match self.resolve_tok(tok) {
@@ -93,7 +94,14 @@ impl<'a> IExec<'a> {
                     InAmt::TwoPow127 => pow2(127),
                     InAmt::TwoPow128 => pow2(128),
                     InAmt::TwoPow255 => pow2(255),
+                    InAmt::HighBitPlus { bit, low } => {
+                        ctx.count("probe.inbound_small_amount_under_a_stray_high_bit");
+                        let mut o = pow2((*bit as u32).clamp(127, 255));
+                        o[30..].copy_from_slice(&low.to_be_bytes());
+                        o
+                    }
                 };
+                announced_amt = Some(amt);
                 let rb: Vec<u8> = match to {
                     Recipient::User(u) => xdr_of(&saddr(&self.h[2 + *u as usize % 4])),
                     Recipient::App => xdr_of(&saddr(&self.h[H_APP])),
@@ -214,6 +222,15 @@ impl<'a> IExec<'a> {
                 return;
             }
         };
+        // the amount the hub announced, as it wrote it, against what the service reads out of the same bytes
+        let bytes_as_built = matches!(dev, Dev::None | Dev::NeverApproved | Dev::ApprovedOtherPayload | Dev::ApprovedOtherId | Dev::ApprovedOtherSourceAddress | Dev::ApprovedOtherDestination | Dev::SourceChainNotHub | Dev::SourceAddressNotHub | Dev::DeliverTwice);
+        if let (true, Some(aw), Some(AHub { msg: AMsg::Transfer { amount, .. }, .. })) = (bytes_as_built, announced_amt, &decoded) {
+            if !ctx.check(w(*amount as u128) == aw, &["C05", "C04", "C10"], "its.decode/announced-amount-misread", || {
+                format!("the hub announced amount 0x{} and the service reads {}", hex::encode(aw), amount)
+            }) {
+                return;
+            }
+        }
         if let Some(m) = &decoded {
             let re = m.encode();
             if !ctx.check(re == payload, &["C10", "C04"], "codec/accepted-non-canonical-encoding", || {
